@@ -82,10 +82,11 @@ class Ctx:
         return n
 
     def enum(self, func, cls=None, resolver=None, may_raise=None, max_depth=3, consts=None, fnbinds=None,
-             max_paths=200000):
+             max_paths=200000, default_kwargs=False):
         pe = PathEnum(self.idx, resolver or SelfResolver(self.idx), may_raise, max_depth=max_depth,
                       hier=self.hier, max_paths=max_paths)
         pe.consteval = self._consteval_hook
+        pe.default_kwargs = default_kwargs
         return pe.run(func, cls if cls is not None else func.cls, consts=consts, fnbinds=fnbinds)
 
     def _consteval_hook(self, node, frame):
